@@ -2,7 +2,7 @@
 # batch_seeds.sh <round> <Cxx[:props]>...   confirm + check each seed; compact verdicts on stdout
 R=$1; shift
 for a in "$@"; do
-  id=${a%%:*}; props=${a#*:}; [ "$props" = "$a" ] && props=$id
+  id=${a%%:*}; props=${a#*:}; [ "$props" = "$a" ] && props=${id:0:3}
   S=/tmp/seed$R-$id
   demo=$(ls $S/*_test.go 2>/dev/null | head -1)
   [ -n "$demo" ] || { echo "== $id: no demo test file in $S: $(ls $S)"; continue; }
